@@ -624,8 +624,28 @@ pub fn check_c12(prog: &NetProgram, res: &NetResult, info: &mut RunInfo) {
         return;
     }
     for r in &res.trace {
-        if let Ev::Query { parent_ok, children_ok, path_ok, name_ok } = r.ev {
+        if let Ev::Query { parent_ok, children_ok, path_ok, name_ok, inactive } = r.ev {
             info.probe("tree_query");
+            // a relative may only be reported as inactive if it was shut down or has panicked
+            if inactive != 0 {
+                let m = r.m as usize;
+                let went_down = |x: usize| res.trace.iter().any(|q| q.m as usize == x && q.seq < r.seq && matches!(q.ev, Ev::ShutdownReq { .. } | Ev::PanicNow));
+                let mut rel: Vec<usize> = Vec::new();
+                if inactive & 1 != 0 && prog.modules[m].parent >= 0 {
+                    rel.push(prog.modules[m].parent as usize);
+                }
+                for (k, ci) in (0..prog.modules.len()).filter(|ci| prog.modules[*ci].parent == m as i32).enumerate() {
+                    if inactive & (1 << (1 + k.min(30))) != 0 {
+                        rel.push(ci);
+                    }
+                }
+                if let Some(x) = rel.iter().find(|x| !went_down(**x)) {
+                    info.violate(Violation::new("C12", "tree-lookup-inactive", format!(
+                        "module {}: the lookup of its relative {} at {} ns failed with 'currently inactive' although that module was never shut down and never panicked",
+                        module_path(prog, m), module_path(prog, *x), r.t)));
+                    return;
+                }
+            }
             if !(parent_ok && children_ok && path_ok && name_ok) {
                 info.violate(Violation::new("C12", "tree-lookup", format!(
                     "module {}: parent ok {parent_ok}, children ok {children_ok}, path ok {path_ok}, name ok {name_ok}", module_path(prog, r.m as usize))));
@@ -669,6 +689,9 @@ pub fn check_c14(prog: &NetProgram, res: &NetResult, info: &mut RunInfo) {
         return;
     }
     let tr = &res.trace;
+    // the start-up phase ends with the first message, timer or task activity; until then every bracket belongs to a
+    // start-up call (timer wake-ups, the only events without a module callback, cannot happen yet)
+    let first_activity = tr.iter().find(|r| matches!(r.ev, Ev::Beat { .. } | Ev::Recv { .. } | Ev::Task { .. } | Ev::PeIn { .. })).map_or(u32::MAX, |r| r.seq);
     let mut i = 0usize;
     let mut any_consume = false;
     let mut any_nonmsg = false;
@@ -813,6 +836,11 @@ pub fn check_c14(prog: &NetProgram, res: &NetResult, info: &mut RunInfo) {
         }
         if !has_msg {
             any_nonmsg = true;
+        }
+        if !has_msg && !saw_handler && tr.get(i).map_or(false, |r| r.seq < first_activity) && res.ok.is_some() {
+            info.violate(Violation::new("C14", "empty-bracket", format!(
+                "module {m}: the elements were given an event_start / event_end bracket (opened at trace #{start_i}) during start-up that contains no start-up call of the module")));
+            return;
         }
         // downstream: reverse order
         for (k, (pid, pspec)) in stack.iter().enumerate().rev() {
